@@ -353,6 +353,7 @@ func checkGenericErrorDiscipline(c *Ctx, pkgs ...string) {
 	n1 := checkValuesGuardedByErr(c, "errors-surface.value-guarded-by-error", nil, pkgs...)
 	n2 := checkErrBranchFails(c, "errors-surface.error-branch-fails", errBranchExceptions, pkgs...)
 	checkErrDisciplineAll(c, "errors-surface.every-error-tested", pkgs...)
+	checkBuilderArgumentRoles(c, "plumbing.argument-roles", pkgs...)
 	if n1 == 0 || n2 == 0 {
 		c.fail("errors-surface.error-branch-fails", "instances", "-", "the generic error rules matched no site in "+joinStrings(pkgs))
 	}
